@@ -194,11 +194,12 @@ def run(idx: ProgramIndex, rep: Report, tier: str, selftest: bool = True):
         "returned tuple and only on executed paths; a shifted prefix, a needs_input_grad index gating the wrong input, "
         "or a requires_grad subset that takes an unexecuted branch are invisible to the tests (which set requires_grad "
         "on everything) and are decided here for all subsets at once. NOT decided: the VALUE of any gradient, swaps "
-        "among same-kind tensor slots, the layout of hand-written _bilinear_derivative overrides."
+        "among same-kind tensor slots. P5 abstracts each hand-written _bilinear_derivative return to a sequence of "
+        "segments (T / D(attr) / S(attr)) and compares it position by position with the constructor record."
     )
     rep.assumptions += [
         "the tail of a backward tuple (list(arg_grads)) is aligned with the flattened representation by "
-        "_bilinear_derivative (not decided here)",
+        "_bilinear_derivative (order of segments decided by P5, values not decided)",
         "layout flags (has_left, inv_quad) are passed as literals or plain booleans at the apply sites",
     ]
     rep.rule("C07.P1", "backward tuples have the fixed prefix of the forward inputs", floor=9)
@@ -554,6 +555,12 @@ def run(idx: ProgramIndex, rep: Report, tier: str, selftest: bool = True):
     rep.analysed["autograd_functions"] = {k: {"fixed": v.fixed, "star": v.star,
                                               "front_unpacks": {str(c): u for c, u in v.front_unpacks.items()}}
                                           for k, v in facts.items()}
+    # ---------------------------------------------------------------- P5
+    from .c07_bd import check_bilinear_layouts
+
+    rep.rule("C07.P5", "hand-written _bilinear_derivative tuples follow the order of the recorded representation", floor=10)
+    check_bilinear_layouts(idx, rep)
+
     if selftest:
         from ..selftest import run_fixtures
 
